@@ -324,8 +324,8 @@ func runProperty(e *Engine, prop, tier, propsFile, evidence, replays, knownFile 
 	if evidence != "" {
 		writeEvidence(e, evidence, prop, tier, pc, results, all, failed, knownHit, undecided, stats, discharged, total, guards, guardsOK, violations, wall, timeout)
 	}
-	fmt.Printf("property=%s tier=%s functions=%d obligations=%d discharged=%d known=%d violations=%d vacuity_guards=%d/%d wall=%.1fs\n",
-		prop, tier, len(keys), total, discharged, len(knownHit), violations, guardsOK, guards, wall)
+	fmt.Printf("property=%s tier=%s functions=%d obligations=%d discharged=%d known=%d violations=%d undecided=%d vacuity_guards=%d/%d wall=%.1fs\n",
+		prop, tier, len(keys), total, discharged, len(knownHit), violations, len(undecided), guardsOK, guards, wall)
 	return exit
 }
 
